@@ -277,7 +277,7 @@ def make_scenario(rng, arch, funcs, base_avma, stack_top, depth, sign_mask=None)
     # fill the rest of the window with plausible junk
     lo = min([fr["sp"] for fr in frames]) - 64
     for a in range(lo & ~7, stack_top + 64, 8):
-        mem.setdefault(a, 0x0bad0000 + (a & 0xfff8))
+        mem.setdefault(a, 0x0bad0000 + ((a - stack_top) & 0xff8))
     chain = []
     for k in range(len(frames) - 1, 0, -1):
         fr = frames[k]
